@@ -46,6 +46,8 @@ def run(chk, ctx):
     if chk.anchor("EvalContext::random", rb):
         cs = panrules.canon_calls(P, rb)
         gens = [c for c in cs if c[0] == "Rng::gen_range"]
+        randcalls = [callee_name(t)[0] for bb, t in rb.calls() if callee_name(t)[0].startswith("rand::") or callee_name(t)[0].startswith("rand_")]
+        chk.require(randcalls == ["rand::Rng::gen_range"], "CNT", "CNT:EvalContext::random:exactly-one-draw", "the only generator call is one gen_range", "EvalContext::random uses the generator through %s" % randcalls)
         chk.require(len(gens) == 1 and gens[0][1] == ["RefCell::borrow_mut(self.rng)", "range"], "CNT", "CNT:EvalContext::random:one-gen_range", "self.rng.borrow_mut().gen_range(range)", "EvalContext::random calls %s" % cs)
         r = set(canon(P.sl(rb).ret(x)) for x in P.cfg(rb).return_blocks())
         chk.require(r == {"Rng::gen_range(RefCell::borrow_mut(self.rng), range)"}, "ORG", "ORG:EvalContext::random:returns-the-draw", "", "EvalContext::random returns %s" % r)
